@@ -73,5 +73,28 @@ for fn in ('eval.json', 'eval_agents.json'):
 if hrows:
     out += ['', '## Harmless edits (the property still holds; an exit 1 would be a false alarm)', '',
             '| patch | what | exit code per check | false alarm | undecided obligations (exit 2) |', '|---|---|---|---|---|'] + hrows
+# kernel-targeted defects: seeded INSIDE the functions under contract (tests contract strength)
+kd = os.path.join(SD, 'kernel')
+if os.path.exists(os.path.join(kd, 'eval.json')):
+    ev = json.load(open(os.path.join(kd, 'eval.json')))
+    krows = []
+    for patch in sorted(ev):
+        meta = {}
+        mp = os.path.join(kd, patch.replace('.diff', '.meta.json'))
+        if os.path.exists(mp):
+            meta = json.load(open(mp))
+        caught = []
+        for pr, c in ev[patch].items():
+            if c['exit'] == 1:
+                obs = [re.sub(r'.*failed obligation: (\S+).*', r'\1', l) for l in c['lines'] if 'failed obligation' in l]
+                caught.append('%s (%s)' % (pr, ', '.join(obs[:2])))
+        und = [pr for pr, c in ev[patch].items() if c['exit'] == 2]
+        krows.append('| %s | %s | %s | %s |' % (patch.replace('.diff', ''), str(meta.get('function', '')).replace('|', '/')[:70],
+                                             str(meta.get('what_changes', '')).replace('|', '/').replace('\n', ' ')[:150],
+                                             ('**caught**: ' + '; '.join(caught)) if caught else ('undecided: ' + ', '.join(und) if und else 'not reported')))
+    nk = len(krows)
+    ck = sum(1 for r in krows if '**caught**' in r)
+    out += ['', '## Defects seeded INSIDE functions under contract (contract-strength test)', '',
+            '| seed | function | change | result |', '|---|---|---|---|'] + krows + ['', '%d kernel-targeted defects, %d caught.' % (nk, ck)]
 open(os.path.join(SD, 'RESULTS.md'), 'w').write('\n'.join(out) + '\n')
 print('\n'.join(out))
